@@ -155,11 +155,11 @@ theorem C11_no_quantizer (cls : Cls) (c : LCfg) (hcls : cls ≠ .activation)
 
 /-! ## 3. recurrent layers -/
 
-/-- QSimpleRNNCell / QLSTMCell (both implementations) / QGRUCell with a recurrent quantizer (both
-    implementations, reset_after or not): one step of the quantized cell is one step of the stock
-    cell on pre-quantized weights with every previous state passed through the state quantizer. -/
-theorem C11_dropin_cell (I : Interp T) (E : Env T) (cls : CellCls) (c : LCfg)
-    (hgru : cls = .gru → c.hasQ 1 = true) (F : Nat → T) (x : T) :
+/-- QSimpleRNNCell / QLSTMCell (both implementations) / QGRUCell (both implementations,
+    reset_after or not, any subset of quantizers): one step of the quantized cell is one step of
+    the stock cell on pre-quantized weights with every previous state passed through the state
+    quantizer. -/
+theorem C11_dropin_cell (I : Interp T) (E : Env T) (cls : CellCls) (c : LCfg) (F : Nat → T) (x : T) :
     cellStep I E (qcell cls c) F x =
       cellStep I (preEnv c E) (kerasCell cls c) (fun j => stateQ c E (F j)) x := by
   cases cls
@@ -169,17 +169,17 @@ theorem C11_dropin_cell (I : Interp T) (E : Env T) (cls : CellCls) (c : LCfg)
   · simp only [cellStep, qcell, kerasCell, qLSTMCell, kLSTMCell, qw, preEnv, stateQ,
       tAdd, tDot, bAdd, tMul]
     by_cases hi : c.impl = 1 <;> cfg_cases c <;> cases _h3 : c.hasQ 3 <;> simp [eval, *]
-  · have h1 := hgru rfl
-    simp only [cellStep, qcell, kerasCell, qGRUCell, kGRUCell, qw, preEnv, stateQ,
-      tAdd, tDot, bAdd, tMul, h1]
+  · simp only [cellStep, qcell, kerasCell, qGRUCell, kGRUCell, qw, preEnv, stateQ,
+      tAdd, tDot, bAdd, tMul]
     by_cases hi : c.impl = 1 <;> cases _hr : c.resetAfter <;> cases _hb : c.useBias <;>
-      cases _h0 : c.hasQ 0 <;> cases _h2 : c.hasQ 2 <;> cases _h3 : c.hasQ 3 <;> simp [eval, *]
+      cases _h0 : c.hasQ 0 <;> cases _h1 : c.hasQ 1 <;> cases _h2 : c.hasQ 2 <;>
+      cases _h3 : c.hasQ 3 <;> simp [eval, *]
 
 /-- the whole recurrence, by induction over the time steps: the states (hence the outputs, state 0)
     after every step of the quantized layer are those of the stock cell on pre-quantized weights
     whose previous states go through the state quantizer.  Any number of steps, any initial state. -/
 theorem C11_dropin_recurrent (I : Interp T) (E : Env T) (cls : CellCls) (c : LCfg)
-    (hgru : cls = .gru → c.hasQ 1 = true) (xs : List T) (S0 : List T) :
+    (xs : List T) (S0 : List T) :
     runCell I E (qcell cls c) S0 xs =
       runRef I (preEnv c E) (kerasCell cls c) (stateQ c E) S0 xs := by
   induction xs generalizing S0 with
@@ -187,7 +187,7 @@ theorem C11_dropin_recurrent (I : Interp T) (E : Env T) (cls : CellCls) (c : LCf
   | cons x xs ih =>
     simp only [runCell, runRef]
     have hs : stateFn (preEnv c E) S0 = stateFn E S0 := rfl
-    rw [C11_dropin_cell I E cls c hgru, hs, ih]
+    rw [C11_dropin_cell I E cls c, hs, ih]
 
 /-- without a state quantizer the reference recurrence is the plain stock recurrence -/
 theorem C11_recurrent_no_state_quantizer (I : Interp T) (E : Env T) (cell : List Term) (c : LCfg)
@@ -197,42 +197,34 @@ theorem C11_recurrent_no_state_quantizer (I : Interp T) (E : Env T) (cell : List
   | nil => rfl
   | cons x xs ih => simp only [runCell, runRef, stateQ, h3]; rw [← ih]; simp
 
-/-- no quantizers: the quantized SimpleRNN / LSTM cells ARE the stock cells (same terms) -/
-theorem C11_no_quantizer_cell (cls : CellCls) (c : LCfg) (hcls : cls ≠ .gru)
+/-- no quantizers: the quantized SimpleRNN / LSTM / GRU cells ARE the stock cells (same terms) -/
+theorem C11_no_quantizer_cell (cls : CellCls) (c : LCfg)
     (hq : ∀ s, c.hasQ s = false) : qcell cls c = kerasCell cls c := by
   cases cls
   · simp [qcell, kerasCell, qSimpleRNNCell, kSimpleRNNCell, qw, hq]
   · simp [qcell, kerasCell, qLSTMCell, kLSTMCell, qw, hq]
-  · exact absurd rfl hcls
+  · simp [qcell, kerasCell, qGRUCell, kGRUCell, qw, hq]
 
-/-- FINDING (qrecurrent.py:1117-1120): with `recurrent_quantizer=None` QGRUCell multiplies the
-    state by `self.kernel` (the INPUT kernel) instead of `self.recurrent_kernel`: the no-quantizer
-    clause fails for QGRU.  Witness in the integers: units = 1, kernel = 2, recurrent kernel = 3,
-    state 1, input 0, `dot` = product, everything else transparent. -/
-theorem C11_gru_no_quantizer_counterexample :
-    ∃ (I : Interp Int) (E : Env Int) (c : LCfg) (x : Int), (∀ s, c.hasQ s = false) ∧
-      cellStep I E (qcell .gru c) E.state x ≠ cellStep I E (kerasCell .gru c) E.state x := by
-  refine ⟨{ const := fun _ => 0,
-            op1 := fun o t => match o with | .oneMinus => 1 - t | _ => t,
-            op2 := fun o a b => match o with | .dot => a * b | .mul => a * b | _ => a + b,
-            op3 := fun _ a _ _ => a },
-          { x := 0, state := fun _ => 1, weight := fun i => if i = 0 then 2 else 3, mask := 0,
-            quant := fun _ t => t, actv := fun _ t => t },
-          { hasQ := fun _ => false, useBias := false, impl := 1 }, 0, fun _ => rfl, ?_⟩
+/-- REGRESSION WITNESS of the defect repaired in /repo 32aca3c (QGRUCell with
+    `recurrent_quantizer=None` multiplied the state by `self.kernel`, the INPUT kernel): in the
+    interpretation that separated the old transcription from the stock cell (integers, units = 1,
+    kernel 2, recurrent kernel 3, state 1, input 0, `dot` = product) the quantized cell now gives
+    the stock cell's value, which involves the recurrent kernel 3 and differs from what the input
+    kernel 2 would give. -/
+theorem C11_gru_no_quantizer_regression :
+    let I : Interp Int :=
+      { const := fun _ => 0,
+        op1 := fun o t => match o with | .oneMinus => 1 - t | _ => t,
+        op2 := fun o a b => match o with | .dot => a * b | .mul => a * b | _ => a + b,
+        op3 := fun _ a _ _ => a }
+    let E : Env Int :=
+      { x := 0, state := fun _ => 1, weight := fun i => if i = 0 then 2 else 3, mask := 0,
+        quant := fun _ t => t, actv := fun _ t => t }
+    let E' : Env Int := { E with weight := fun _ => 2 }   -- recurrent kernel replaced by the input kernel
+    let c : LCfg := { hasQ := fun _ => false, useBias := false, impl := 1 }
+    cellStep I E (qcell .gru c) E.state 0 = cellStep I E (kerasCell .gru c) E.state 0 ∧
+    cellStep I E (qcell .gru c) E.state 0 ≠ cellStep I E' (kerasCell .gru c) E'.state 0 := by
   simp [cellStep, qcell, kerasCell, qGRUCell, kGRUCell, qw, tAdd, tDot, tMul, eval]
-
-/-- … and the defect is exactly that substitution: with no recurrent quantizer the quantized GRU
-    cell is the stock cell whose recurrent kernel was replaced by the RAW (unquantized) input kernel. -/
-theorem C11_dropin_gru_partial (I : Interp T) (E : Env T) (c : LCfg) (h1 : c.hasQ 1 = false)
-    (F : Nat → T) (x : T) :
-    cellStep I E (qcell .gru c) F x =
-      cellStep I { preEnv c E with
-          weight := fun i => if i = 1 then E.weight 0 else (preEnv c E).weight i }
-        (kerasCell .gru c) (fun j => stateQ c E (F j)) x := by
-  simp only [cellStep, qcell, kerasCell, qGRUCell, kGRUCell, qw, preEnv, stateQ,
-    tAdd, tDot, bAdd, tMul, h1]
-  by_cases hi : c.impl = 1 <;> cases _hr : c.resetAfter <;> cases _hb : c.useBias <;>
-    cases _h0 : c.hasQ 0 <;> cases _h2 : c.hasQ 2 <;> cases _h3 : c.hasQ 3 <;> simp [eval, *]
 
 /-! ## 4. `get_quantizers()` -/
 
@@ -269,8 +261,7 @@ theorem C11_quantizers_on_own_weights (cls : Cls) (c : LCfg) :
   · exact own_scaleShift c
 
 /-- recurrent cells: `[kernel, recurrent, bias, state]`; the state quantizer is applied to the
-    previous states only, the weight quantizers to their own weights only (QGRU included: the
-    defect of `C11_gru_no_quantizer_counterexample` is in the un-quantized branch). -/
+    previous states only, the weight quantizers to their own weights only. -/
 theorem C11_reported_quantizers_cell (cls : CellCls) (c : LCfg) :
     appliedSlots 4 (qcell cls c) = reportedLiveCell cls c ∧
     (qcell cls c).all (fun t => (quantSites t).all ownTargetCell) = true := by
